@@ -808,7 +808,7 @@ func runC11(c *Ctx) error {
 	fam2 := c.Rep.Family("sequences", "random operation sequences of length 1..8 over {validate, filename(f), package(f), name+package(f) = file name asked on the very Info that is packaged next} for the five formats on one parsed configuration (drawn from a pool of generated configurations); every package compared with the package from a freshly parsed configuration; deep snapshot (reflection over every setting, every contents entry and its file_info, every override block, and the result of Get for every format) before and after the sequence; failing sequences are shrunk by dropping operations; non-trivial = at least two operations, one of them a packaging")
 	r2 := c.R.Fork("c11-sequences")
 	pool := make([]*isoCfg, c.N(10, 120))
-	nSeq := c.N(200, 5000)
+	nSeq := c.N(250, 5000)
 	reported := map[string]int{}
 	for i := 0; i < nSeq; i++ {
 		slot := r2.Intn(len(pool))
@@ -822,6 +822,10 @@ func runC11(c *Ctx) error {
 			slot = 3 // … override blocks with nothing under them next to an entry addressed to one packager
 		} else if i < 150 && len(pool) > 4 {
 			slot = 4 // … a relation list one of whose items expands to nothing at parse time (the list keeps spare capacity)
+		} else if i < 175 && len(pool) > 5 {
+			slot = 5 // … a glob entry that collides with an entry addressed to rpm only: the rpm packaging fails, the others do not
+		} else if i < 200 && len(pool) > 6 {
+			slot = 6 // … an entry whose packager is spelled in capitals (it addresses no packager) next to an override block for rpm
 		}
 		if pool[slot] == nil {
 			y := genIsoConfigYAML(r2, tree, scripts)
@@ -839,6 +843,14 @@ func runC11(c *Ctx) error {
 			}
 			if slot == 4 {
 				y = strings.Replace(isoPlainConfigYAML(tree, scripts), "depends: [/bin/sh, libc, \"zlib (>= 1.2)\"]", "depends: [\"${OPTIONAL_DEPENDENCY}\", libc, \"zlib (>= 1.2)\", \"${ANOTHER_ONE}\"]", 1)
+			}
+			if slot == 5 {
+				y = isoPlainConfigYAML(tree, scripts) + fmt.Sprintf("  - src: %q\n    dst: /etc/globbed\n    type: config\n  - src: %q\n    dst: /etc/globbed/a.conf\n    packager: rpm\n",
+					filepath.Join(tree.Root, "etc/conf.d/*.conf"), filepath.Join(tree.Root, "etc/app.conf"))
+			}
+			if slot == 6 {
+				y = isoPlainConfigYAML(tree, scripts) + fmt.Sprintf("  - src: %q\n    dst: /usr/share/isoplain/capitals\n    packager: RPM\n  - src: %q\n    dst: /usr/share/isoplain/blanks\n    packager: \" deb \"\n",
+					filepath.Join(tree.Root, "etc/app.conf"), filepath.Join(tree.Root, "etc/app.conf")) + "overrides:\n  rpm:\n    depends: [only-rpm]\n  deb:\n    depends: [only-deb]\n"
 			}
 			base, err := isoBaselines(y)
 			if err != nil {
